@@ -25,6 +25,11 @@ Main theorems (model A = Flatland/Path.lean, spec B = Flatland/Spec/C14.lean):
                       has `.`/`..`), for ints within `int()`'s digit limit (`StepFits`);
 * `find_print_denotes`  **end to end**: `find(print p, single, strict)` = spec B's `findSpec` of the
                       AST, for every tree, start element, `single`, `strict`, on the Canon domain;
+* `eval_cancel_denotes` / `find_print_cancel`  without `Canon`: what the code evaluates is, for every
+                      well-formed path, the documented reading of the path with every `X/..` pair and
+                      every `.` deleted (`cancel`) — the exact content of KF-C14-a;
+* `denote_sorted` / `find_sorted`  "in sequence order": Canon + ascending strides ⇒ the results are
+                      strictly increasing in document order (no duplicates);
 * `tokenize_print_names`  the name fragment separately (escaped punctuation is a literal name
                       character), also for names the bracket-free printer of C13 needs.
 
